@@ -84,6 +84,8 @@ def block_benign():
         n += 1
         ok += 1 if m.get("silent") else 0
         note = " (after the correction noted below)" if m.get("note") else ""
+        if m.get("superseded"):
+            note += f" (at /repo {m.get('repo_head')}; the patch no longer applies to the final tree, see below)"
         out.append(f"| {os.path.basename(d)} | {title} | {'yes' if m.get('tests_pass') else 'NO'} | {m.get('sanity_head')} / {m.get('sanity_changed')} | {'yes' if m.get('silent') else '**NO**'}{note} |")
     out.append(f"\n{ok} of {n} behaviour-preserving refactors leave their check silent.")
     return "\n".join(out)
